@@ -116,6 +116,8 @@ struct ParFrameBuf {
     buffers: Vec<Mutex<NumberedFrameBuf>>,
     encode_queue: (Sender<Option<usize>>, Receiver<Option<usize>>),
     refill_queue: (Sender<usize>, Receiver<usize>),
+    /// Set by a worker when a frame failed to encode; the feeder stops reading then.
+    failed: Mutex<bool>,
 }
 
 impl ParFrameBuf {
@@ -138,6 +140,7 @@ impl ParFrameBuf {
             buffers,
             encode_queue: crossbeam_channel::bounded(replicas + 1),
             refill_queue: (refill_sender, refill_receiver),
+            failed: Mutex::new(false),
         })
     }
 
@@ -167,6 +170,18 @@ impl ParFrameBuf {
             .0
             .send(bufid)
             .expect(panic_msg::MPMC_SEND_FAILED);
+    }
+
+    /// Records that a frame failed to encode.
+    #[inline]
+    pub fn mark_failed(&self) {
+        *self.failed.lock().expect(panic_msg::MUTEX_LOCK_FAILED) = true;
+    }
+
+    /// Returns `true` if a frame failed to encode.
+    #[inline]
+    pub fn has_failed(&self) -> bool {
+        *self.failed.lock().expect(panic_msg::MUTEX_LOCK_FAILED)
     }
 
     #[inline]
@@ -317,6 +332,11 @@ fn feed_fixed_block_size<T: Source, C: Fill>(
 
     let result = 'feed: loop {
         let bufid = parbuf.recv_refill_request();
+        // A frame error ends the encoding as in the single-thread mode; reading on
+        // would never end for a source without an end.
+        if parbuf.has_failed() {
+            break 'feed Ok(());
+        }
         {
             let mut numbuf = parbuf.buffers[bufid]
                 .lock()
@@ -423,7 +443,11 @@ pub fn encode_with_fixed_block_size<T: Source>(
                         )
                     };
                     // The buffer is handed back also when encoding failed (e.g. a sample
-                    // out of range); the error is reported by the calling thread.
+                    // out of range); the error is reported by the calling thread, which
+                    // stops reading when it sees the mark.
+                    if encode_result.is_err() {
+                        parbuf.mark_failed();
+                    }
                     parbuf.enqueue_refill(bufid);
                     match encode_result {
                         Ok(mut frame) => {
